@@ -20,7 +20,7 @@ func hasFP(t *Term) bool {
 			return false
 		}
 		seen[t] = true
-		if t.Sort == SF64 || t.Sort == SReal || strings.HasPrefix(t.Op, "fp.") || t.Op == "tenth" || t.Op == "ratingClass" {
+		if t.Sort == SF64 || t.Sort == SReal || strings.HasPrefix(t.Op, "fp.") || t.Op == "tenth" || t.Op == "ratingClass" || t.Op == "isTenthIn" || t.Op == "kof" {
 			return true
 		}
 		for _, a := range t.Args {
